@@ -794,7 +794,10 @@ class Router:
         # forwarding-algorithm packet assembly, so both AREA_FORWARDING and
         # NON_AREA_FORWARDING branches share the same signed bytes.
         sec_payload: bytes | None = None
-        if request.security_profile == SecurityProfile.DECENTRALIZED_ENVIRONMENTAL_NOTIFICATION_MESSAGE:
+        if (
+            self.mib.itsGnSecurity == GnSecurity.ENABLED
+            and request.security_profile == SecurityProfile.DECENTRALIZED_ENVIRONMENTAL_NOTIFICATION_MESSAGE
+        ):
             if self.sign_service is None:
                 raise NotImplementedError(
                     "DENM security profile requires a SignService"
